@@ -222,7 +222,7 @@ def run_kernel(host, fname, nq, start, stop, details_buffer, values, q, result, 
 # ---------------------------------------------------------------------------
 # symbolic meshes
 
-def sym_mesh(info, lengths, dim, tag="", magnetic=False, free_sld_pd=False):
+def sym_mesh(info, lengths, dim, tag="", magnetic=False, free_sld_pd=False, unit_weights=False):
     """Mesh [(value, dispersity, weights)] per call parameter with fresh symbols.
 
     *lengths*: call-parameter name -> number of distribution points (default 1).
@@ -252,7 +252,8 @@ def sym_mesh(info, lengths, dim, tag="", magnetic=False, free_sld_pd=False):
             w = [1.0]
         else:
             d = [symx.real("%s%s_d%d" % (tag, p.id, k)) for k in range(n)]
-            w = [symx.real("%s%s_w%d" % (tag, p.id, k)) for k in range(n)]
+            w = ([1.0] * n if unit_weights else
+                 [symx.real("%s%s_w%d" % (tag, p.id, k)) for k in range(n)])
         syms[p.id] = (v, d, w)
         mesh.append((v, symx.oarray(d), symx.oarray(w)))
     return mesh, syms
